@@ -230,7 +230,10 @@ fn update(cx: &CaseCtx, rep: &mut Report, rng: &mut Rng) {
 	let dir = cx.fresh_dir("c11");
 	let enc = imvt::EncOpts { dup_keys: rng.chance(0.3), dup_vals: rng.chance(0.3), unused_entries: rng.chance(0.3), foreign_field_order: rng.chance(0.5) };
 	let go = imvt::GenOpts { extreme_values: rng.chance(0.3), id_field: Some("osm_id".into()), max_features: 7, wide_tables: if cx.tier.is_tiny() { 0.0 } else { 0.02 }, ..Default::default() };
-	let sets = gen_vector_sets(rng, 1, &go, false, &enc);
+	let mut sets = gen_vector_sets(rng, 1, &go, false, &enc);
+	if cx.tier.is_tiny() {
+		sets[0].truncate(3);
+	}
 	let set = &sets[0];
 	rep.count("tiles_with_tables_beyond_16384_entries", set.layers.values().filter(|l| imvt::has_wide_table(l)).count() as u64);
 	let csv = gen_csv(rng);
